@@ -54,6 +54,9 @@ def plan(tier, seed):
         for order in range(1, 7):
             for permute in (True, False):
                 cases.append(dict(key=f"ArbitraryOrderLagrange/order={order}/dim={dim}/permute={permute}", cls="ArbitraryOrderLagrange", kw=dict(order=order, dim=dim, permute=permute), cost=(order + 3) ** (2 * dim)))
+    # high orders in one dimension (no order limit is documented; the monomial scaling uses factorials)
+    for order in (10, 16, 21, 22):
+        cases.append(dict(key=f"ArbitraryOrderLagrange/order={order}/dim=1/permute=False", cls="ArbitraryOrderLagrange", kw=dict(order=order, dim=1, permute=False), cost=order))
     # the class is documented as an n-dimensional element: dimension four (permute=False: no VTK ordering exists beyond three)
     for order in (1, 2):
         cases.append(dict(key=f"ArbitraryOrderLagrange/order={order}/dim=4/permute=False", cls="ArbitraryOrderLagrange", kw=dict(order=order, dim=4, permute=False), cost=(order + 3) ** 6))
@@ -150,9 +153,12 @@ def run(case):
         dim, D, lo, hi, kind, order, nnodal = SPEC[cls]
     viol, nontrivial = [], []
     ntrans = 0
+    # (equidistant Lagrange bases of high order: entries up to 1e6 and an ill-conditioned Vandermonde matrix -- the round-off of
+    #  the unchanged code grows by about 3 per order: 2e-9 at order 16, 4e-8 at 21, 1e-7 at 22)
+    TOLc = TOL if not (cls == "ArbitraryOrderLagrange" and order >= 14) else TOL * 3.5 ** (order - 14) * 10
 
     def bad(sub, what, obs, exp):
-        viol.append(dict(key=f"{key}/{sub}", what=what, observed=obs, expected=exp, tol=TOL))
+        viol.append(dict(key=f"{key}/{sub}", what=what, observed=obs, expected=exp, tol=TOLc))
 
     n = D + 3
     x, Dm = cheb(n, lo, hi)
@@ -258,7 +264,7 @@ def run(case):
         ntrans += 2 * len(pts0)
         if not np.array_equal(np.asarray(el.points, dtype=float), pts0):
             bad("siblings/points", "the element's point table changed when sibling objects of the same order were modified by their owners", float(np.abs(np.asarray(el.points, dtype=float) - pts0).max()), 0)
-        if np.abs(K1 - K0).max() > 0 or np.abs(K1 - np.eye(len(pts0))).max() > 1e-9:
+        if np.abs(K1 - K0).max() > 0 or np.abs(K1 - np.eye(len(pts0))).max() > max(1e-9, TOLc):
             bad("siblings/nodal-basis", "shape functions at the element's own points after sibling objects (element, mesh, quadrature of the same order) were modified in place by their owners", float(max(np.abs(K1 - K0).max(), np.abs(K1 - np.eye(len(pts0))).max())), "identity, unchanged")
 
     # (v) degree bound: interpolate the tabulated function onto a shifted lattice
@@ -270,7 +276,7 @@ def run(case):
     Hy = tab(el.function, [y] * dim)
     ntrans += len(y) ** dim
     e = np.abs(Hi - Hy)
-    if e.max() > TOL:
+    if e.max() > TOLc:
         a = int(np.unravel_index(e.argmax(), e.shape)[0])
         bad(f"degree/node={a}", "degree bound exceeded: function is not a polynomial of per-axis degree <= D", float(e.max()), f"per-axis degree <= {D}")
 
@@ -286,7 +292,7 @@ def run(case):
     ntrans += len(yo) ** dim
     amp = max(np.abs(Lo).sum(1).max() ** dim, 1.0)
     eo = np.abs(Ho - Hyo)
-    if eo.max() > TOL * amp * max(np.abs(Hyo).max(), 1.0):
+    if eo.max() > TOLc * amp * max(np.abs(Hyo).max(), 1.0):
         a = int(np.unravel_index(eo.argmax(), eo.shape)[0])
         bad(f"outside-cell/function/node={a}", "function evaluated outside the reference cell is not the continuation of the polynomial it is inside", float(eo.max()), 0)
     for k in range(dim):
@@ -295,7 +301,7 @@ def run(case):
             Go = apply_axis(Lo, Go, 1 + kk)
         Gyo = tab(el.gradient, [yo] * dim)[:, k]
         ego = np.abs(Go - Gyo)
-        if ego.max() > TOL * amp * 10 * max(np.abs(Gyo).max(), 1.0) * (n ** 2):
+        if ego.max() > TOLc * amp * 10 * max(np.abs(Gyo).max(), 1.0) * (n ** 2):
             a = int(np.unravel_index(ego.argmax(), ego.shape)[0])
             bad(f"outside-cell/gradient/node={a}/comp={k}", "gradient evaluated outside the reference cell is not the derivative of the continued polynomial", float(ego.max()), 0)
     ntrans += len(yo) ** dim
@@ -307,7 +313,7 @@ def run(case):
             err = np.abs(G[a, k] - ref[a]).max()
             if np.abs(ref[a]).max() > 1e-12:
                 nontrivial.append(f"grad/{a}/{k}")
-            if err > TOL:
+            if err > TOLc:
                 bad(f"gradient/node={a}/comp={k}", "gradient entry differs from the derivative of function", float(err), "0 (max abs deviation on the lattice)")
     has_hess = hasattr(el, "hessian")
     if has_hess:
@@ -323,10 +329,10 @@ def run(case):
                         err = np.abs(HS[a, k, l] - ref[a]).max()
                         if np.abs(ref[a]).max() > 1e-12:
                             nontrivial.append(f"hess/{a}/{k}{l}")
-                        if err > TOL * 10:
+                        if err > TOLc * 10:
                             bad(f"hessian/node={a}/comp={k},{l}", "hessian entry differs from the second derivative of function", float(err), "0 (max abs deviation on the lattice)")
                         serr = np.abs(HS[a, k, l] - HS[a, l, k]).max()
-                        if l > k and serr > TOL:
+                        if l > k and serr > TOLc:
                             bad(f"hessian/node={a}/sym={k},{l}", "hessian not symmetric", float(serr), 0)
 
     # (ii) Kronecker delta at own points, partition of unity, sum of gradients
@@ -337,13 +343,13 @@ def run(case):
             ntrans += 1
             d = np.zeros(nnodal)
             d[a] = 1
-            if np.abs(h - d).max() > TOL:
+            if np.abs(h - d).max() > TOLc:
                 bad(f"delta/point={a}", "nodal functions at the element's own point", h.tolist(), d.tolist())
     pu = np.abs(H[:nnodal].sum(0) - 1).max()
-    if pu > TOL:
+    if pu > TOLc:
         bad("partition_of_unity", "sum of nodal functions", float(pu), 0)
     sg = np.abs(G[:nnodal].sum(0)).max()
-    if sg > TOL:
+    if sg > TOLc:
         bad("sum_gradient", "sum of nodal gradients", float(sg), 0)
     nontrivial.append("pu")
 
@@ -359,7 +365,7 @@ def run(case):
             err = np.abs(lhs - rhs).max()
             ntrans += 1
             nontrivial.append("mono" + "".join(map(str, e_)))
-            if err > TOL:
+            if err > TOLc:
                 bad("completeness/monomial=" + "".join(map(str, e_)), "interpolant of a monomial of the element space", float(err), 0)
     nspace = len(mons)
     if not cls.startswith("Constant") and nspace != nnodal:
@@ -376,13 +382,13 @@ def run(case):
             b = np.asarray(el.function(r), float)[nnodal:]
             ntrans += 1
             cnt += 1
-            if np.abs(b).max() > TOL:
+            if np.abs(b).max() > TOLc:
                 bad("bubble/boundary=" + ",".join(map(str, lam)), "bubble function on the cell boundary", b.tolist(), 0)
         # and it is not identically zero (centre value a / 27 resp. a / 256)
         c = np.full(dim, 1 / (dim + 1))
         bc = float(np.asarray(el.function(c))[-1])
         expc = case["kw"]["bubble_multiplier"] / (dim + 1) ** (dim + 1)
-        if abs(bc - expc) > TOL:
+        if abs(bc - expc) > TOLc:
             bad("bubble/centre", "bubble value at the barycentre", bc, expc)
         nontrivial.append("bubble")
 
